@@ -188,9 +188,13 @@ def run(ck):
         north = AND(*[AND(CMP('<=', S[k], Ee[k]), CMP('<=', Ee[k], S[k + 1])) for k in range(-3, 4)])
         south = AND(*[AND(CMP('<=', Ee[k], S[k]), CMP('<=', S[k], Ee[k + 1])) for k in range(-3, 4)])
         inter = OR(north, south)
-        rdA = OR(*[AND(CMP('<=', S[k], t), *[NOT(AND(CMP('<=', S[k], Ee[j]), CMP('<=', Ee[j], t))) for j in range(-3, 5)]) for k in range(-3, 4)])
-        rdB = OR(*[AND(CMP('<=', S[k], t), *[NOT(AND(CMP('<', S[k], Ee[j]), CMP('<=', Ee[j], t))) for j in range(-3, 5)]) for k in range(-3, 4)])
-        agree = IFF(rdA, rdB)
+        # the defining sentence, per interleaving pattern: northern periods are [S(k), E(k)), southern ones [S(k), E(k+1)).
+        # A rule satisfying BOTH patterns (start and end coincide in every year) is ambiguous ("following" end = the coinciding one or
+        # next year's): the claim is asserted there only where both formulas agree.
+        rdN = OR(*[AND(CMP('<=', S[k], t), CMP('<', t, Ee[k])) for k in range(-3, 4)])
+        rdS = OR(*[AND(CMP('<=', S[k], t), CMP('<', t, Ee[k + 1])) for k in range(-3, 4)])
+        rdA = ITE(north, rdN, rdS, 'Bool')
+        agree = OR(NOT(AND(north, south)), IFF(rdN, rdS))
         right = AND(resok, ITE(rdA, veq(lt, dst), veq(lt, std), 'Bool'))
         role = AND(CMP('=', S[0], Ee[0]), NOT(north))   # F2: tie in the queried year of a rule that is not of the northern pattern
         base = AND(inyr, gw, inter, agree)
@@ -207,8 +211,8 @@ def run(ck):
         A.claim(f'L3:{tagn}:out_of_range_is_error', AND(NOT(inr), NOT(AND(NOT(resok), is_variant(res['$v']['Err'][0], E_, 'TzError', 'OutOfRange')))), get=allv, replay=lambda m: None)
         # window sufficiency: periods starting before Y-3 have ended by t; starts after Y+3 are later than t
         A.claim(f'L3:{tagn}:window_future_starts_after_t', AND(inyr, gw, inter, CMP('<=', S[3], t)), get=allv, cases=cases, replay=lambda m: None)
-        A.claim(f'L3:{tagn}:window_old_periods_closed', AND(inyr, gw, inter, NOT(OR(*[AND(CMP('<', S[-3], Ee[j]), CMP('<=', Ee[j], t)) for j in range(-3, 1)]))), get=allv, cases=cases, replay=lambda m: None,
-                meaning='the period starting in year Y-3 (hence every earlier one, starts being increasing) is closed by an end instant <= t under both readings')
+        A.claim(f'L3:{tagn}:window_oldest_start_before_t', AND(inyr, gw, inter, CMP('>', S[-3], t)), get=allv, cases=cases, replay=lambda m: None,
+                meaning='the start of year Y-3 is <= t: with increasing yearly instants and the interleaving pattern every period starting before Y-3 has ended by then')
         A.claim(f'L3:{tagn}:yearly_instants_increase', AND(inyr, gw, OR(CMP('<', ARI('-', S[1], S[0]), 364 * DAY), CMP('<', ARI('-', Ee[1], Ee[0]), 364 * DAY))), get=allv, cases=cases, replay=lambda m: None,
                 meaning='start(y+1)-start(y) >= 364 days (same for end), for the symbolic year Y')
         j0 = ARI('*', cal.J(Y), DAY)
